@@ -230,7 +230,7 @@ Qed.
 Lemma step_inv st a : inv st -> inv (fst (step st a)).
 Proof.
   intros Hinv. pose proof Hinv as [HI [HJ HP]].
-  destruct a as [ss ts_ok spl_ok|ss|ss|k ss|k ts_ok spl_ok|k ts_ok spl_ok|k|]; cbn [step].
+  destruct a as [ss ts_ok spl_ok|ss|ss|k ss|k ts_ok spl_ok|k ts_ok spl_ok|k| |k]; cbn [step].
   - pose proof (finish_inv st (begin_req st ss) ts_ok spl_ok (pending st) Hinv (begin_covered st ss HI) (incl_refl _)) as H.
     destruct (finish st (begin_req st ss) ts_ok spl_ok (pending st)) as [st' ack]. exact H.
   - exact Hinv.
@@ -259,6 +259,8 @@ Proof.
     cbn [fst]. split; [exact HI|]. split; [exact HJ|].
     intros g Hg. cbn [pending ts_rows] in *. apply HP. eapply remove_nth_In; eassumption.
   - cbn [fst]. split; [intros x []|]. split; [exact HJ|exact HP].
+  - cbn [fst]. split; [|split; [exact HJ|exact HP]].
+    intros x Hx. cbn [cache ts_rows] in *. apply HI. eapply remove_nth_In; exact Hx.
 Qed.
 
 Lemma inv_init : inv init.
@@ -399,6 +401,13 @@ Example w_flush_abort_obs :
   List.length (acked (run init w_flush_abort)) = 1%nat /\ pending (run init w_flush_abort) = [].
 Proof. vm_compute. repeat (split; [reflexivity|]). reflexivity. Qed.
 
+(* fastcache drops an entry: the next push of the series announces it again (nothing is lost, one more row is written) *)
+Definition w_evict : list action := [Push [w_stream] true true; Push [w_stream] true true; CacheEvict 0; Push [w_stream] true true].
+Example w_evict_announces_again :
+  run_obs init w_evict = [OPush true [(19732, 7, 1)] 1; OPush true [] 1; OReset; OPush true [(19732, 7, 1)] 1] /\
+  all_indexed_typed (run init w_evict) = true.
+Proof. vm_compute. split; reflexivity. Qed.
+
 (* ------------------------------------------------------------------ where an inserted row comes from
    Every series row ever inserted was announced by a stream of the history that has the row's fingerprint, an
    entry on the row's day and an entry of the row's type. (The row's labels text is encodeLabels of that stream's
@@ -498,7 +507,7 @@ Qed.
 Lemma step_origin S st a : origin_inv S st -> origin_inv (S ++ streams_of_action a) (fst (step st a)).
 Proof.
   intros Hinv. assert (Hinv' : origin_inv (S ++ streams_of_action a) st) by (apply (origin_mono S); [apply incl_appl, incl_refl|assumption]).
-  destruct a as [ss ts_ok spl_ok|ss|ss|k ss|k ts_ok spl_ok|k ts_ok spl_ok|k|]; cbn [step streams_of_action] in *.
+  destruct a as [ss ts_ok spl_ok|ss|ss|k ss|k ts_ok spl_ok|k ts_ok spl_ok|k| |k]; cbn [step streams_of_action] in *.
   - pose proof (finish_origin _ st (begin_req st ss) ts_ok spl_ok (pending st) Hinv' (begin_origin S st ss) (incl_refl _)) as H.
     destruct (finish st (begin_req st ss) ts_ok spl_ok (pending st)) as [st' ack]. exact H.
   - exact Hinv'.
@@ -520,6 +529,7 @@ Proof.
   - destruct (nth_error (pending st) k) as [f|] eqn:En; [|exact Hinv'].
     destruct Hinv' as [H1 H2]. cbn [fst]. split; cbn [ts_rows pending]; [exact H1|].
     intros g Hg. apply H2. eapply remove_nth_In; eassumption.
+  - destruct Hinv' as [H1 H2]. cbn [fst]. split; cbn [ts_rows pending]; assumption.
   - destruct Hinv' as [H1 H2]. cbn [fst]. split; cbn [ts_rows pending]; assumption.
 Qed.
 
